@@ -27,6 +27,22 @@ int main ()
         O.put (1); O.put (dhexs ((double) worst)); } \
       catch (std::exception&) { O.put (0); O.put (dhexs (0.0)); } }
     CINVD(2) CINVD(3) CINVD(4) };
+  // oracle: matrices with ONE non-zero entry per row and column, each a power of two times 1, i, -1 or -i, with exponents that
+  // differ by up to 2000 binary orders inside one matrix (huge and tiny entries together): non-singular, and the inverse is exact
+  // (entry 2^-e times the conjugate unit at the transposed place).  Complex and real.  Output: flags inverted (complex, real),
+  // then the number of entries of the two inverses that are not exactly the expected ones
+  OP("o.c13.monomial") { unsigned n=A.nat(); std::vector<unsigned> perm; std::vector<int> ex, un; for (unsigned i=0;i<n;i++) perm.push_back (A.nat()); for (unsigned i=0;i<n;i++) ex.push_back (A.integer()); for (unsigned i=0;i<n;i++) un.push_back (A.integer());
+    static const std::complex<double> U[4] = { {1,0}, {0,1}, {-1,0}, {0,-1} };
+#define MONO(N) if (n == N) { Matrix<N,N,std::complex<double> > m, want; Matrix<N,N,double> r, rwant; \
+      for (unsigned i=0;i<N;i++) { m[i][perm[i]] = U[un[i] & 3] * std::ldexp (1.0, ex[i]); want[perm[i]][i] = std::conj (U[un[i] & 3]) * std::ldexp (1.0, -ex[i]); \
+        r[i][perm[i]] = ((un[i] & 2) ? -1.0 : 1.0) * std::ldexp (1.0, ex[i]); rwant[perm[i]][i] = ((un[i] & 2) ? -1.0 : 1.0) * std::ldexp (1.0, -ex[i]); } \
+      int okc = 1, okr = 1; long bad = 0; \
+      try { Matrix<N,N,std::complex<double> > x = inv (m); for (unsigned i=0;i<N;i++) for (unsigned j=0;j<N;j++) if (!(x[i][j] == want[i][j])) bad++; } catch (std::exception&) { okc = 0; } \
+      try { Matrix<N,N,double> x = inv (r); for (unsigned i=0;i<N;i++) for (unsigned j=0;j<N;j++) if (!(x[i][j] == rwant[i][j])) bad++; } catch (std::exception&) { okr = 0; } \
+      O.put (okc); O.put (okr); O.put (Rat (bad)); }
+    MONO(2) MONO(3) MONO(4)
+#undef MONO
+  };
   // the angle passed in another arithmetic type (int, long, float, long double; the parameter is a double) gives the matrix of
   // the same angle as a double, bit for bit.  Output: number of differing entries per type
   OP("o.c14.angletypes") { auto v=A.vec<3>(); int k = A.integer(); Vector<3,double> vd; for (unsigned i=0;i<3;i++) vd[i] = (double) v[i];
